@@ -13,8 +13,46 @@ CHECKS = {
              text='Solver-decided for all full-width operands (|sec|<=2^61 for add/sub, all int64 for cmp, all 2^32 ms/us): results normalized and equal to integer arithmetic on sec*1e9+nsec.',
              note='trusted: CBMC, minisat, cvc5 1.0 (--solve-bv-as-int=sum for the ms/us kernels); C build only until the IR route covers the C++ unit', ref='2 C18'),
 }
+
+E3NOTE = 'trusted: clang-14/opt-14 IR generation, the seqcc translator (its output is executed natively on every counterexample and must reproduce it), CBMC symbolic execution, kissat; sequentially consistent interleavings within the stated rounds/unrolling; modelled semaphore, clock and allocator'
+def e3(text, tech='bounded symbolic model checking of sequentialised interleavings of the real code (seqcc -> CBMC -> kissat)', ref='1.3'):
+    return dict(engine='E3', technique=tech, text=text, note=E3NOTE, ref=ref)
+CHECKS.update({
+ 'C01': dict(engine='E2+E3', technique='thread-modular rely/guarantee step check of the mutex word on the real code (seqcc single-thread + symbolic environment, CBMC/kissat) plus bounded interleavings with occupancy counters',
+             text='Solver-decided inductive step: every atomic write of every acquisition/release/wait/signal function to the mutex word satisfies the C01 guarantee from every word the environment (any number of threads) can produce; '
+                  'functions return holding exactly their contract. Covers any thread count and history up to 3 interfering changes per call and loop unrolling 2 (3 thorough). Plus bounded-interleaving scenarios.',
+             note=E3NOTE + '; the rely (what other threads may do to the word) is stated in harness/e3/e2_word.c', ref='1.2'),
+ 'C02': e3('For every schedule within the bounds (2-3 threads, 3-4 rounds) no thread stays asleep with nobody able to wake it (deadlock oracle), every thread can finish; trylock/rtrylock never sleep under arbitrary interference.'),
+ 'C03': e3('For every schedule within the bounds every plain access (client data and nsync non-atomic fields) is ordered by happens-before computed only from the memory orders the real atomic.h requests (vector clocks, C++20 release sequences).',
+           tech='bounded symbolic model checking with a vector-clock happens-before oracle over the declared memory orders taken from the LLVM IR (seqcc -> CBMC -> kissat)'),
+ 'C04': e3('Monitor-pattern scenarios whose only progress source is the wake-up: a lost or swallowed wake-up is a deadlock found by the solver over all schedules, deadlines and clock values within the bounds.'),
+ 'C05': dict(engine='E2+E3', technique='thread-modular step check (lock mode at return under arbitrary interference) plus bounded interleavings with solver-chosen deadline and clock', 
+             text='nsync_mu_wait_with_deadline / nsync_cv_wait_with_deadline return holding the mutex in the mode of entry for every interference (E2); result codes agree with clock, condition and deadline on every bounded schedule (E3).', note=E3NOTE, ref='1.2'),
+ 'C06': e3('Bounded interleavings of conditional waiters (same / equivalent / different conditions, reader and writer mode) with setters: a waiter left asleep is a deadlock; conditions are evaluated only under exclusive hold (callback assertion and E2 guarantee).'),
+ 'C07': e3('Bounded interleavings of mixed run_once variants: run count == 1 and completion flag checked immediately after every return.'),
+ 'C10': e3('Bounded interleavings of decrementers, waiter, reader: returned values, wait results against value and virtual clock, waiters released at zero (deadlock oracle).'),
+ 'C11': e3('Bounded interleavings of nsync_wait_n over {counter}/{cv, counter} with decrementer/signaller, solver-chosen deadline: returned index vs object state and clock; leftover registrations exposed by making objects ready again (use-after-return oracle).'),
+ 'C13': e3('Reference-count pattern with free of the object holding the mutex, and wait_n stack records: every access asserts liveness of the object in the memory model; UNSAT over all bounded schedules.'),
+ 'C14': dict(engine='E2', technique='thread-modular step check on nsync_mu_lock/rlock/trylock/rtrylock/lock_slow with ghost sleep counter; retry loop unrolled past LONG_WAIT_THRESHOLD in the thorough tier',
+             text='Solver-decided obligations (1) never-waited threads cannot acquire past MU_LONG_WAIT, (2) MU_LONG_WAIT is set at the 30th fruitless wake-up and cleared only by its setter on acquiring, (3) woken threads re-queue at the front. The bound on the number of sleeps derived from them is a paper argument.',
+             note=E3NOTE, ref='2 C14'),
+ 'C16': dict(engine='E2+E3', technique='thread-modular guarantee check on the debug-state functions (mutex and cv word) plus bounded interleavings with a debug caller',
+             text='Concurrency half only: the debug-state functions change no lock bit and release the spinlocks they take without disturbing other bits, for every interference; C01/C02 oracles with a debug caller in bounded interleavings. The buffer half (writes inside buf[0..n-1], NUL, "...") is NOT decided by a solver check (see DESIGN.md).',
+             note=E3NOTE, ref='2 C16'),
+ 'C19': e3('Single-thread symbolic execution (one context, loops unrolled) of nsync_note_new / nsync_counter_new with the allocation failing or not, parent shape and deadline kind solver-chosen: NULL result, parent unchanged, unlocked and usable.',
+           tech='bounded symbolic execution of the real constructors with a failing allocator (seqcc -> CBMC)'),
+ 'C12': dict(engine='E1', technique='CBMC thread encoding + sequential CBMC under symbolic interference on platform/linux/src/nsync_semaphore_futex.c with a modelled futex(2)',
+             text='All interleavings of 1 waiter + 1..2 posters over the real P/V code with up to 2 injected early futex returns: no lost post, no invented post; timed wait under interference: ETIMEDOUT only at/after the deadline, success consumes exactly one post.',
+             note='trusted: CBMC, minisat; SC atomics model (plat/sc_atomic); futex model in harness/C12', ref='2 C12'),
+ 'C15': dict(engine='E1', technique='sequential CBMC on nsync_mu_semaphore_p_with_deadline for every timespec deadline against the futex(2) contract; counterexamples re-run through the public API of the rebuilt real library',
+             text='For all 2^64 seconds values (incl. before the epoch), nsec < 1e9 and no_deadline: no ASSERT/crash, termination within the bound, expired deadline => ETIMEDOUT, no early timeout.',
+             note='trusted: CBMC; the layers above the semaphore pass the deadline through unchanged (read, not encoded)', ref='2 C15'),
+})
+NA = {
+ 'C08': 'not claimed yet: the note scenarios translate to programs too large for the bounded model checker within the time budget (see DESIGN.md section 6); C09 likewise',
+ 'C09': 'not claimed yet: see C08',
+}
 NA_REASON = 'check not built yet (work in progress; see DESIGN.md section 5 for the order of work)'
-NA = {}
 
 def main():
     checks = []
@@ -42,6 +80,10 @@ def main():
         'engines': [
             {'name': 'E1', 'path': 'lib/e1.py', 'serves_properties': [p for p in ALL if CHECKS.get(p, {}).get('engine', '').startswith('E1')],
              'kind_free_text': 'CBMC (goto-cc of the real C translation units + harness with symbolic inputs), native replay of counterexamples'},
+            {'name': 'E2', 'path': 'harness/e3/e2_word.c', 'serves_properties': [p for p in ALL if 'E2' in CHECKS.get(p, {}).get('engine', '')],
+             'kind_free_text': 'thread-modular rely/guarantee step check: one thread of real code (seqcc translation) + symbolic environment on the mutex word'},
+            {'name': 'E3', 'path': 'seqcc/', 'serves_properties': [p for p in ALL if 'E3' in CHECKS.get(p, {}).get('engine', '')],
+             'kind_free_text': 'seqcc: LLVM IR of the real units -> predicated resumable C over a scalar-cell memory model; round-robin scheduler with solver-chosen pre-emption points; CBMC + kissat; native replay'},
         ],
         'checks': checks,
         'notes': 'Every check rebuilds from /repo (or $VERIF_REPO) into a scratch dir under /var/tmp that is removed at exit. Exit codes: 0 held / 1 VIOLATION / 2 check broken or inconclusive.',
